@@ -76,6 +76,8 @@ def main():
     run = Run(PID, tier)
     from harness.lie import touch_all as _touch_all
     _touch_all()        # first uses of the Lie API happen BEFORE the models are derived (see harness/lie.py)
+    from harness import history as _history      # derivation histories in fresh interpreters (spec/DeriveHistory.tla)
+    _history.run_models(run, tier, ("rdd2:control_allocation", "rdd2:f_alloc"))
     f = build()
     if "--replay" in sys.argv:
         import json
